@@ -219,7 +219,35 @@ def build_numprobe(build, sc):
         build.extra_mod.insert(0, mod)
 
 
-def run_driver(build, sc, cases, label, chunk=1500, timeout=None):
+FOLD_R = ("+", "-", "*", "/", "quotient", "remainder", "neg")
+FOLD_F = ("=", "<", ">", "<=", ">=")
+
+
+def code_line(c):
+    """(C09) the case as source text over literal operands, in one of several shapes the simplifier treats differently:
+    direct application, constant-bound let (propagation then folding), shadowing lets, under a constant test, nested in a
+    dead-branch conditional.  Only VM opcodes of class arithmetic / comparison are used (that is what simplify.c folds)."""
+    a = [lit(x) for x in c.a]
+    op = "-" if c.op == "neg" else c.op
+    kind = "f" if c.op in FOLD_F else "r"
+    shape = c.id % 6
+    if len(a) == 1:
+        e = ["(%s %s)", "(let ((x %s)) (%s x))", "(%s (+ %s 0))", "(let ((x 0)) (let ((x %s)) (%s x)))", "(if #t (%s %s) 0)", "(%s (if #f 1 %s))"][shape]
+        e = e % ((a[0], op) if shape in (1, 3) else (op, a[0]))
+    else:
+        x, y = a
+        e = ["(%(op)s %(x)s %(y)s)",
+             "(let ((x %(x)s) (y %(y)s)) (%(op)s x y))",
+             "(let ((x %(y)s)) (let ((x %(x)s) (y x)) (%(op)s x y)))",
+             "(if (< 1 2) (%(op)s %(x)s %(y)s) 0)",
+             "(%(op)s (if #f 0 %(x)s) (let ((z %(y)s)) z))",
+             "(let ((x %(x)s)) (begin x (%(op)s x %(y)s)))"][shape] % {"op": op, "x": x, "y": y}
+    if kind == "f":
+        e = "(if %s #t #f)" % e if c.id % 2 else e
+    return "(run-code %d (lambda () %s) '%s)" % (c.id, e, kind)
+
+
+def run_driver(build, sc, cases, label, chunk=1500, timeout=None, code=False):
     """Run all cases on the implementation; returns ({id: output object}, fixbits).  A case on which the
     interpreter dies (signal) or hangs (timeout; a chunk normally takes about a second) gets {"crash": rc}; the
     rest of its chunk is run in a fresh process, at most a few times (then the rest stays unanswered)."""
@@ -237,9 +265,9 @@ def run_driver(build, sc, cases, label, chunk=1500, timeout=None):
             rnd += 1
             with open(path, "w") as f:
                 for c in todo:
-                    f.write(c.sexp() + "\n")
+                    f.write((code_line(c) if code else c.sexp()) + "\n")
             try:
-                p = build.run([DRIVER, path], timeout=timeout)
+                p = build.run([DRIVER, path] + (["code"] if code else []), timeout=timeout)
                 out, rc = p.stdout.decode(errors="replace"), p.returncode
             except Exception as ex:
                 import subprocess
@@ -394,7 +422,7 @@ def validate(chk, sc, module, cfgpath, cases, events, label, nshards=None, timeo
     return rejected
 
 
-def process(chk, sc, build, module, cfgmaker, cases, label, batch=60000, timeout=900):
+def process(chk, sc, build, module, cfgmaker, cases, label, batch=60000, timeout=900, code=False):
     """driver -> events -> TLC, in batches (keeps memory flat in the thorough tier).
     Returns (rejected ids, {id: output} for rejected and sampled cases, {id: event} for rejected cases, fixbits, cfg path)."""
     rejected, keep_outs, keep_events = set(), {}, {}
@@ -405,7 +433,7 @@ def process(chk, sc, build, module, cfgmaker, cases, label, batch=60000, timeout
     for part in vlib.chunks(cases, batch):
         nb += 1
         t0 = time.time()
-        outs, fb = run_driver(build, sc, part, "%s_b%d" % (label, nb))
+        outs, fb = run_driver(build, sc, part, "%s_b%d" % (label, nb), code=code)
         tm["driver"] = round(tm.get("driver", 0) + time.time() - t0, 1)
         if fixbits is None:
             fixbits, cfg = fb, cfgmaker(fb)
@@ -627,7 +655,30 @@ def variant_cases(rng, fixbits, scale=1.0):
     return number_cases(cases)
 
 
-def run_variant(chk, sc, build, label, scale=1.0, report=False):
+def fold_cases(rng, fixbits, scale=1.0):
+    """(C09) operand pairs whose results cross the fixnum/bignum boundary in both directions, for source-level folding."""
+    fx = 1 << fixbits
+    edge = [0, 1, -1, 2, -2, 3, 7, 10, fx - 1, fx - 2, -fx, -fx + 1, fx, fx + 1, -fx - 1, (fx >> 1), (fx >> 1) + 1, -(fx >> 1), 1 << 31, (1 << 32) - 1, 1 << 32,
+            3037000499, 3037000500, 1 << 63, (1 << 64) - 1, 1 << 64, -(1 << 64), (1 << 64) + 1, 1 << 100, (1 << 128) - 1, -(1 << 127)]
+    cases = []
+    for a in edge:
+        for b in rng.sample(edge, min(len(edge), int(10 * scale) + 6)):
+            for op in rng.sample(FOLD_R[:-1] + FOLD_F, 4):
+                if b == 0 and op in ("/", "quotient", "remainder"):
+                    continue
+                cases.append(Case(op, (a, b), tag="fold"))
+        cases.append(Case("neg", (a,), tag="fold"))
+    for _ in range(int(300 * scale)):
+        a = rng.getrandbits(rng.randint(1, 130)) * rng.choice([1, -1])
+        b = rng.getrandbits(rng.randint(1, 70)) * rng.choice([1, -1])
+        op = rng.choice(FOLD_R[:-1] + FOLD_F)
+        if b == 0 and op in ("/", "quotient", "remainder"):
+            b = 1
+        cases.append(Case(op, (a, b), tag="fold"))
+    return number_cases(cases)
+
+
+def run_variant(chk, sc, build, label, scale=1.0, report=False, code=False):
     """Run the C04 driver on another build (e.g. vlib.build_repo(dir, cflags="-DSEXP_USE_CUSTOM_LONG_LONGS=1")) and let TLC
     (NumTrace.tla) judge every recorded call.  Returns
         {"cases": n, "accepted": n, "fixbits": k, "rejected": {structural key: {"call", "count", "implementation_output"}}}
@@ -637,10 +688,10 @@ def run_variant(chk, sc, build, label, scale=1.0, report=False):
     rng = random.Random("%s:variant" % chk.seed)          # the same calls for every build of one run
     build_numprobe(build, sc)
     _, fixbits = run_driver(build, sc, number_cases([Case("+", (1, 1))]), label + "_probe")
-    cases = variant_cases(rng, fixbits, scale)
+    cases = fold_cases(rng, fixbits, scale) if code else variant_cases(rng, fixbits, scale)
     saved = dict(chk.cov.get("seconds", {}))
     rejected, outs, events, fixbits, cfg = process(
-        chk, sc, build, "NumTrace.tla", lambda fb: write_cfg(sc, "NumTrace_%s.cfg" % label, {"FixBits": fb}), cases, label)
+        chk, sc, build, "NumTrace.tla", lambda fb: write_cfg(sc, "NumTrace_%s.cfg" % label, {"FixBits": fb}), cases, label, code=code)
     chk.cov["seconds"] = saved
     byid = {c.id: c for c in cases}
     res = {}
@@ -655,6 +706,9 @@ def run_variant(chk, sc, build, label, scale=1.0, report=False):
         confirm_and_report(col, sc, "NumTrace.tla", cfg, byid, events, outs, rejected, label, fixbits)
         for key, msg, name, content in col.items:
             res[key] = {"call": content["call"], "count": content["count"], "implementation_output": content["implementation_output"]}
+            if code:
+                ev_id = content["event"]["id"]
+                res[key]["source"] = code_line(byid[ev_id])
             if report:
                 content = dict(content, key="%s:%s" % (label, key))
                 chk.report("%s:%s" % (label, key), "[%s] %s" % (label, msg), name, content)
